@@ -33,4 +33,13 @@ CHECKS = {
             {"part": "informer", "test": "TestInformer", "quick": {"checks": 5000, "shards": 8}, "thorough": {"checks": 300000, "shards": 16, "timeout": 3000}},
         ],
     },
+    "C15": {
+        "pkg": "c15",
+        "technique": "stateful property-based testing (rapid) of the chain search against reference BFS + chain validity predicate",
+        "level_text": "Random rule graphs and query sequences on the real ChainStorage; existence compared with BFS, returned chains checked for validity. Search, not proof.",
+        "level_note": "Trusted: BFS reference in props/c15. 'Same version' = equal after trimming the group (one group) or equal strings (several groups, full spellings).",
+        "parts": [
+            {"part": "chain", "test": "TestChain", "quick": {"checks": 6000, "shards": 4}, "thorough": {"checks": 400000, "shards": 16, "timeout": 3000}},
+        ],
+    },
 }
